@@ -250,3 +250,21 @@ func successReturn(h *ssa.Function) *ssa.Return {
 	}
 	return out
 }
+
+// ownerNames: the names under which a site in fn may be listed in an allow-list: fn's own (closure ordinals
+// neutralised), and - when fn is a private helper - those of the function(s) it was extracted from, as that function
+// itself and as a function literal of it (a deferred clean-up closure turned into a named function is still that
+// clean-up).
+func ownerNames(fn *ssa.Function, name func(*ssa.Function) string) []string {
+	out := []string{closureNeutral(name(fn))}
+	g := outermost(fn)
+	for d := 0; d < 3; d++ {
+		site := helperSite(g)
+		if site == nil {
+			break
+		}
+		g = outermost(site.Parent())
+		out = append(out, closureNeutral(name(site.Parent())), name(g)+"$closure")
+	}
+	return out
+}
